@@ -96,15 +96,15 @@ def _expect(op):
 
 def nontrivial(op, mres, tag):
     f = op.split()
-    if f[1] == "keylookup":
+    if f[1] in ("keylookup", "walias"):
         return True
     return f[1] == "samekey" or mres.startswith("ok") or mres == "err mismatch"
 
 
 def branch(op, mres, tag):
     f = op.split()
-    if f[1] == "keylookup":
-        return "keylookup:" + mres
+    if f[1] in ("keylookup", "walias"):
+        return f[1] + ":" + mres
     r = mres.split(" ")
     head = f[1] + (":" + f[2] if f[1] == "e2e" else "")
     if r[0] != "ok":
@@ -127,6 +127,12 @@ def predicate(op, il, mres, tag):
     """the property itself, on the implementation's behaviour"""
     f = op.split()
     kind = f[1]
+    if kind == "walias":
+        d = dict(x.split("=", 1) for x in il.split(" ")[1:] if "=" in x)
+        if il.startswith("ok pub=") and d.get("pub") != d.get("sig"):
+            return ("Relic.Props.C07.emitted_leaf_matches_key", "the key that signs is the key whose public key the handle carries",
+                    "worker RPC with key name %s: the handle carries the public key of %s, the signature was made by %s" % (f[2], d.get("pub"), d.get("sig")))
+        return None
     if kind == "keylookup":
         if il.startswith("ok p=") and il.split()[1] not in ("p=1", "p=!"):
             return ("Relic.Props.C07.mismatch_is_error (key lookup; Relic.Props.C15.pinned_key_never_stale)", "key 1 or an error",
